@@ -28,6 +28,15 @@ pub fn msg_bytes<T: grin_core::ser::Writeable>(t: Type, m: T, v: u32) -> Vec<u8>
 	out
 }
 
+/// Append `extra` bytes to the body of a frame and announce them in its length field.
+pub fn pad_frame(b: &mut Vec<u8>, extra: usize) {
+	if extra > 0 {
+		let len = (b.len() - 11 + extra) as u64;
+		b[3..11].copy_from_slice(&len.to_be_bytes());
+		b.extend(std::iter::repeat(0xee).take(extra));
+	}
+}
+
 fn write_split(s: &mut TcpStream, b: &[u8], at: usize) -> std::io::Result<()> {
 	let at = at.min(b.len());
 	s.set_nodelay(true)?;
@@ -76,7 +85,7 @@ fn learn_nonce(hs: &Handshake) -> Result<u64, String> {
 	Ok(nonce)
 }
 
-fn accept_case(rv: u32, same: bool, in_ring: bool, cut: usize) -> Result<Value, String> {
+fn accept_case(rv: u32, same: bool, in_ring: bool, cut: usize, extra: usize) -> Result<Value, String> {
 	let hs = Handshake::new(genesis(true), P2PConfig::default());
 	let nonce = if in_ring { learn_nonce(&hs)? } else { 0x1234_5678_9abc_def0 };
 	let l = TcpListener::bind("127.0.0.1:0").map_err(|e| e.to_string())?;
@@ -93,7 +102,8 @@ fn accept_case(rv: u32, same: bool, in_ring: bool, cut: usize) -> Result<Value, 
 			receiver_addr: PeerAddr(addr),
 			user_agent: "raw".to_string(),
 		};
-		let b = msg_bytes(Type::Hand, hand, rv);
+		let mut b = msg_bytes(Type::Hand, hand, rv);
+		pad_frame(&mut b, extra);
 		write_split(&mut s, &b, cut).map_err(|e| e.to_string())?;
 		let _ = s.set_read_timeout(Some(Duration::from_secs(10)));
 		match read_message::<Shake, _>(&mut s, ProtocolVersion(rv.min(1000)), Type::Shake) {
@@ -115,7 +125,7 @@ fn accept_case(rv: u32, same: bool, in_ring: bool, cut: usize) -> Result<Value, 
 	Ok(v)
 }
 
-fn initiate_case(rv: u32, same: bool, cut: usize) -> Result<Value, String> {
+fn initiate_case(rv: u32, same: bool, cut: usize, extra: usize) -> Result<Value, String> {
 	let hs = Handshake::new(genesis(true), P2PConfig::default());
 	let l = TcpListener::bind("127.0.0.1:0").map_err(|e| e.to_string())?;
 	let addr = l.local_addr().map_err(|e| e.to_string())?;
@@ -130,7 +140,8 @@ fn initiate_case(rv: u32, same: bool, cut: usize) -> Result<Value, String> {
 			total_difficulty: Difficulty::min_dma(),
 			user_agent: "raw".to_string(),
 		};
-		let b = msg_bytes(Type::Shake, shake, rv);
+		let mut b = msg_bytes(Type::Shake, shake, rv);
+		pad_frame(&mut b, extra);
 		write_split(&mut s, &b, cut).map_err(|e| e.to_string())?;
 		Ok(json!({"hand_version": hand.version.value(), "genesis_ok": hand.genesis == genesis(true)}))
 	});
@@ -346,10 +357,11 @@ pub fn run(args: &Args) -> i32 {
 		let same = c["same_genesis"].as_bool().unwrap();
 		let in_ring = c["nonce_in_ring"].as_bool().unwrap();
 		let role = c["role"].as_str().unwrap();
+		let extra = c["extra"].as_u64().unwrap_or(0) as usize;
 		let cut = 1 + (i * 7) % 60;
 		let obs = match role {
-			"accept" => accept_case(rv, same, in_ring, cut),
-			_ => initiate_case(rv, same, cut),
+			"accept" => accept_case(rv, same, in_ring, cut, extra),
+			_ => initiate_case(rv, same, cut, extra),
 		};
 		executed += 1;
 		let obs = match obs {
@@ -378,6 +390,14 @@ pub fn run(args: &Args) -> i32 {
 				&& !(obs["wire"]["hand_version"] == json!(local) && obs["wire"]["genesis_ok"] == json!(true))
 			{
 				bad = Some(("hand", format!("hand on the wire {}", obs["wire"])));
+			}
+		} else if eres == "badlen" {
+			// a Hand / Shake body longer than the message: any refusal will do
+			if ores == "ok" {
+				bad = Some((
+					"trailing_bytes_accepted",
+					format!("{} byte(s) behind the {} message in its frame, handshake completed (v{})", extra, if role == "accept" { "Hand" } else { "Shake" }, obs["version"]),
+				));
 			}
 		} else {
 			// both reasons present: either refusal satisfies the property
